@@ -24,7 +24,7 @@ MUTANTS = [
     ("eager-run-without-runnable", core.SCHED, "transaction.run.eq(transaction.ready & transaction.runnable & noconflict)", "transaction.run.eq(transaction.ready & noconflict)"),
     ("rr-request-without-runnable", core.SCHED, "rr.requests[k].eq(transaction.ready & transaction.runnable)", "rr.requests[k].eq(transaction.ready)"),
     ("runnable-any", M, "m.d.comb += transaction.runnable.eq(Cat(runnable_terms).all())", "m.d.comb += transaction.runnable.eq(Cat(runnable_terms).any())"),
-    ("runnable-only-direct-methods", M, "for body in method_map.ready_for_transaction(transaction)\n", "for body in [transaction]\n"),
+    ("runnable-only-direct-methods", M, "                for body in method_map.ready_for_transaction(transaction)\n            ]\n", "                for body in [transaction]\n            ]\n"),
     ("runnable-no-ready-deps", M, "body.ready & Cat(dep.run for dep in ready_dependencies[body]).all()", "body.ready"),
     ("ready-for-transaction-only-self", M, "return [trans] + self.methods_by_transaction[trans]", "return [trans] + self.methods_by_transaction[trans][:1]"),
     ("validators-only-nonexclusive", M, "                if method.validate_arguments is not None\n", "                if method.validate_arguments is not None and method.nonexclusive\n"),
